@@ -137,6 +137,11 @@ pub fn fill_inplace(text: &mut String, width: usize) {
             line_offset += line_len;
             // We've advanced past all ' ' characters -- want to move
             // one ' ' backwards and insert our '\n' there.
+            #[cfg(feature = "verif-hooks")]
+            crate::verif::emit(
+                "fill_inplace.index",
+                &[crate::verif::n(offset), crate::verif::n(line_offset)],
+            );
             indices.push(line_offset - 1);
         }
 
